@@ -56,6 +56,11 @@ def run_shard(ctx):
     ctx.run_given(arb.faulted_input(L), lambda x: judge_c08(ctx, L, x[0], x[1], x[2], x[3], x[4]), ctx.share(8000 if q else 150000), name="faulted")
     ctx.run_given(arb.arbitrary_input(L), lambda x: judge_c08(ctx, L, x[0], x[1], x[2], x[3], x[4]), ctx.share(5000 if q else 100000), name="arbitrary")
 
+    if not ctx.quick():
+        from .common import fuzz_campaign
+
+        ctx.run_plain(lambda: fuzz_campaign(ctx, "c08", 150000), "libfuzzer")
+
 
 def replay(ctx, payload):
     L = synthetic.extended_layout(layout()) if "SYN" in payload["type"] else layout()
